@@ -78,9 +78,9 @@ func judgeEncoding(p *prepared, offers []string, got, pan string) (class, what s
 	return "wrong-encoding" + suffix(p), fmt.Sprintf("encoding: Accept-Encoding %s offers %q: returned %q, expected %s", headerText(p), offers, got, e), e
 }
 
-// handlerOffers: the two admissible readings of "its produces list plus the API's
-// default type, last", over the produces list as the running instance holds it: the
-// default moved last (what Respond negotiates on) and the route's own order.
+// handlerOffers: "its produces list plus the API's default type, last", over the produces
+// list as the running instance holds it: the default is the last offer wherever (and
+// whether) the operation declares it. asRouted is only shown in messages.
 func handlerOffers(routeProduces []string, def string) (movedLast, asRouted []string) {
 	for _, p := range routeProduces {
 		if p != def {
@@ -94,9 +94,8 @@ func handlerOffers(routeProduces []string, def string) (movedLast, asRouted []st
 }
 
 func judgeHandler(p *prepared, a *api, produces []string, def string, res handlerResult) (class, what string, e expect) {
-	o1, o2 := handlerOffers(a.routeProduces, def)
+	o1, _ := handlerOffers(a.routeProduces, def)
 	e = expectType(p, parseOffers(o1), "")
-	e2 := expectType(p, parseOffers(o2), "")
 	ctx := fmt.Sprintf("handler: Accept %s produces %q (as routed %q) API default %q: %s", headerText(p), produces, a.routeProduces, def, res)
 	if res.pan != "" {
 		return "handler-panic" + suffix(p), ctx, e
@@ -134,8 +133,8 @@ func judgeHandler(p *prepared, a *api, produces []string, def string, res handle
 		return "handler-406-missing" + suffix(p), ctx + "; the Accept header admits none of the declared types: expected 406 and no handler call", e
 	case someAll && res.status == 406:
 		return "handler-406-spurious" + suffix(p), ctx + fmt.Sprintf("; the Accept header admits %s: expected 200", e), e
-	case res.status == 200 && !e.has(res.contentType) && !e2.has(res.contentType):
-		return "handler-wrong-content-type" + suffix(p), ctx + fmt.Sprintf("; expected Content-Type %s (default last) or %s (route order)", e, e2), e
+	case res.status == 200 && !e.has(res.contentType):
+		return "handler-wrong-content-type" + suffix(p), ctx + fmt.Sprintf("; expected Content-Type %s (offers %q: the route's types, the API default last)", e, o1), e
 	}
 	return "", "", e
 }
